@@ -32,7 +32,8 @@ COMPONENTS = {
 }
 PROBES = ["tally pool conflict", "later record overrides contest", "phantom and real record merged", "pool flag only on later record",
           "three or more records for one card", "raire multi-contest card", "raire empty ranking", "no duplicates at all",
-          "falsy tally pool label", "falsy card identifier", "raire ballot id equals a candidate id"]
+          "falsy tally pool label", "falsy card identifier", "raire ballot id equals a candidate id",
+          "records built with CVR.from_dict", "RAIRE file read twice, first result mutated in between"]
 
 
 def generate(rng, tier):
@@ -58,7 +59,7 @@ def generate(rng, tier):
             con = rng.pick(contests)
             n = rng.randint(0, len(con["cands"]))
             ballots.append({"contest": con["id"], "id": rng.pick(bids), "ranking": rng.sample(con["cands"], n)})
-        return {"kind": "raire", "contests": contests, "ballots": ballots, "via_file": rng.chance(0.6)}
+        return {"kind": "raire", "contests": contests, "ballots": ballots, "via_file": rng.chance(0.6), "read_twice": rng.chance(0.4)}
     ncards = rng.randint(1, 6)
     ids = [f"card{j}" for j in range(ncards)]
     if rng.chance(0.35):  # identifiers need not be truthy: a card numbered 0, an empty label
@@ -79,7 +80,8 @@ def generate(rng, tier):
         if conflict and rng.chance(0.2):
             tp = rng.pick(["p1", "p2", "p3", 0, ""])
         recs.append({"id": i, "votes": votes, "phantom": rng.chance(0.3), "pool": rng.chance(0.3), "tally_pool": tp})
-    return {"kind": "merge", "records": recs}
+    return {"kind": "merge", "records": recs, "via_from_dict": rng.chance(0.5),
+            "omit_defaults": rng.chance(0.5)}
 
 
 def ref_merge(recs):
@@ -153,7 +155,30 @@ def execute(case):
         if any(r["tally_pool"] is not None and not r["tally_pool"] for r in recs):
             out.probe("falsy tally pool label")
         out.units["records"] += len(recs)
-        cvrs = W.mk_cvrs(ns, recs)
+        if case.get("via_from_dict"):
+            # the records arrive as dicts (the documented way to build a CVR list); optional keys holding their
+            # default value may simply be absent
+            dicts = []
+            for r in recs:
+                d = {"id": r["id"], "votes": copy.deepcopy(r["votes"]), "phantom": r["phantom"], "pool": r["pool"],
+                     "tally_pool": r["tally_pool"]}
+                if case.get("omit_defaults"):
+                    if d["phantom"] is False:
+                        del d["phantom"]
+                    if d["pool"] is False:
+                        del d["pool"]
+                    if d["tally_pool"] is None:
+                        del d["tally_pool"]
+                dicts.append(d)
+            try:
+                cvrs = ns.CVR.from_dict(dicts)
+                out.probe("records built with CVR.from_dict")
+            except Exception as e:
+                out.raised("from_dict", e)
+                out.violate("C18.a", f"from_dict/raised-{type(e).__name__}", f"CVR.from_dict raised {e!r}")
+                return out
+        else:
+            cvrs = W.mk_cvrs(ns, recs)
         try:
             got = ns.CVR.merge_cvrs(cvrs)
         except Exception as e:
@@ -196,6 +221,17 @@ def execute(case):
                 with open(p, "w") as f:
                     for r in rows:
                         f.write(",".join(r) + "\n")
+                if case.get("read_twice"):
+                    # the same untouched file is read again after the first result was used (ids rewritten in place by
+                    # Dominion.raire_to_dominion, flags set, a record appended) - the second reading is the one judged
+                    first, _a, _b = ns.CVR.from_raire_file(p)
+                    ns.Dominion.raire_to_dominion(first)
+                    for c in first:
+                        c.pool = True
+                        c.tally_pool = "used"
+                        c.votes["added-by-caller"] = {}
+                    first.append(ns.CVR(id="appended-by-caller", votes={}, phantom=True))
+                    out.probe("RAIRE file read twice, first result mutated in between")
                 got, _n_read, n_unique = ns.CVR.from_raire_file(p)
             if n_unique != len(got):
                 out.violate("C18.f", "raire/unique-count", f"reported {n_unique} distinct identifiers, returned {len(got)} records")
@@ -224,6 +260,11 @@ def reducers(case):
         if len(case[key]) > 1:
             c = copy.deepcopy(case)
             del c[key][i]
+            yield c
+    for flag in ("via_from_dict", "omit_defaults", "read_twice"):
+        if case.get(flag):
+            c = copy.deepcopy(case)
+            c[flag] = False
             yield c
     if case["kind"] == "merge":
         for i, r in enumerate(case["records"]):
